@@ -89,6 +89,8 @@ class LoopMixin(StmtMixin):
             raise Unsupported("invariant rule: only `while` loops are supported")
         if s.orelse:
             raise Unsupported("invariant rule: while ... else")
+        if st.rec:
+            raise Unsupported("invariant rule inside a summarised (rule F) loop")
         k = self.loop_ordinal(st, s)
         where = self.where(s, st)
         names = _assigned_names(s.body)
@@ -102,9 +104,10 @@ class LoopMixin(StmtMixin):
         for text, c in self._inv_conditions(st, inv):
             self.ctx.obls.append(Obligation(f"loop#{k}/init", "loop", st.hyps(), z3.simplify(c), where, {"text": text}))
         # 2. arbitrary iteration: havoc the assigned locals, assume the invariant
+        types0 = {}
         for n in names:
-            ty = self._scalar_type(self.force(st, frame.env[n]))
-            frame.env[n] = self.fresh_of(st, ty, f"loop{k}_{n}")
+            types0[n] = self._scalar_type(self.force(st, frame.env[n]))
+            frame.env[n] = self.fresh_of(st, types0[n], f"loop{k}_{n}")
         for text, c in self._inv_conditions(st, inv):
             st.pc.append(z3.simplify(c))
         fi = self.frame_finfo(st)
@@ -121,14 +124,12 @@ class LoopMixin(StmtMixin):
             for z in self.exec_block(s.body, [y]):
                 if z.status != "run":
                     raise Unsupported(f"invariant rule: the loop body is left by {z.status}")
-                if set(z.heap) != set(heap0) and any(r not in z.heap for r in heap0):
-                    raise Unsupported("invariant rule: the loop body changes the heap")
                 for r, h in heap0.items():
                     if z.heap.get(r) is not h:
                         raise Unsupported("invariant rule: the loop body changes the heap")
                 for n in names:
-                    if self._scalar_type(self.force(z, z.frame.env[n])) is None:
-                        raise Unsupported(f"invariant rule: loop-carried variable '{n}' is not a scalar after the body")
+                    if self._scalar_type(self.force(z, z.frame.env[n])) != types0[n]:
+                        raise Unsupported(f"invariant rule: loop-carried variable '{n}' changes its type in the body")
                 for text, c in self._inv_conditions(z, inv):
                     self.ctx.obls.append(Obligation(f"loop#{k}/preserved", "loop", z.hyps(), z3.simplify(c), where, {"text": text}))
         return out
